@@ -539,6 +539,11 @@ func propC19(c *Ctx) {
 	re := c.Rule("err-nil-use", "a value returned together with an error is used as a method receiver only where the error was tested nil (or the value tested non-nil): otherwise a failing operation (e.g. BinaryOp on unorderable operands) leaves a nil interface that is then dereferenced", 3)
 	ruleErrNilUse(c, re, afns)
 
+	rad := c.Rule("args-direct", "the argument slices of a Call are indexed only inside Call's own methods, whose uses the get-bound rule covers", 2)
+	ruleArgsDirect(c, rad)
+	rjp := c.Rule("json-panic-typed", "every explicit panic on the json encoding path carries the wrapper that Marshal recovers (anything else reaches the script's caller as a Go panic)", 1)
+	ruleJSONPanicTyped(c, rjp)
+
 	// ---- objimpl / registry ----------------------------------------------------------------------
 	propC19Registry(c)
 }
